@@ -370,6 +370,7 @@ def run(ctx, rep):
     wal_rules.r02h(ctx, rep, ['TxWal'])
     wal_rules.r02i(ctx, rep, ['TxWal'])
     wal_rules.r02j(ctx, rep, ['TxWal'])
+    wal_rules.r02k(ctx, rep, ['TxWal'])
     c03.r03c(ctx, rep, cr)
     c03.r03d(ctx, rep, cr)
     c03.r03e(ctx, rep, cr)
